@@ -23,21 +23,34 @@ def supp_observe(source, R):
     src = Source(source, fname)
     extract_scope(src, project)
     by_pos = {np(n): n for n in get_name_usages(src.tree)}
+    from supp.name import MultiName, UndefinedName, RuntimeName
+    site_by_pos = {tuple(v): k for k, v in R.site_pos.items()}
+    unused = sorted({site_by_pos[(d[2], d[3])] for d in diags if d[0] in ('W01', 'W02') and (d[2], d[3]) in site_by_pos})
     rd = []
     for rid in sorted(R.read_pos):
         ln, col, nm = R.read_pos[rid]
         node = by_pos.get((ln, col))
-        o = {'id': rid, 'vis': False, 'e02': (ln, col) in e02, 'e42': (ln, col) in e42, 'assist': False}
+        o = {'id': rid, 'vis': False, 'e02': (ln, col) in e02, 'e42': (ln, col) in e42, 'assist': False, 'alts': [], 'undef': False}
         flow = getattr(node, 'flow', None)
         if flow is not None:
-            o['vis'] = flow.names_at((ln, col)).get(nm) is not None
+            sn = flow.names_at((ln, col)).get(nm)
+            o['vis'] = sn is not None
+            if sn is not None:
+                for a in (sn.alt_names if isinstance(sn, MultiName) else [sn]):
+                    if type(a) is UndefinedName:
+                        o['undef'] = True
+                    elif isinstance(a, RuntimeName):
+                        o['alts'].append(-1)
+                    else:
+                        da = getattr(a, 'declared_at', None)
+                        o['alts'].append(site_by_pos.get(tuple(da), -2) if da else -2)
         try:
             pfx, props = assistant.assist(project, source, (ln, col + len(nm)), fname)
             o['assist'] = nm in props
         except Exception as e:  # noqa
             o['assist_exc'] = type(e).__name__
         rd.append(o)
-    return rd, [list(map(str, d[:4])) for d in diags if d[0] == 'E01']
+    return rd, [list(map(str, d[:4])) for d in diags if d[0] == 'E01'], unused
 
 
 def make_case(cid, seed, exec_limit):
@@ -49,9 +62,10 @@ def make_case(cid, seed, exec_limit):
     ex = mscope.enumerate_cpython(R, limit=exec_limit)
     if ex is None:
         return None
-    rd, e01 = supp_observe(R.source, R)
+    rd, e01, unused = supp_observe(R.source, R)
     return {'id': cid, 'gseed': seed, 'nodes': nodes, 'scopes': scopes, 'builtins': mscope.BUILTINS, 'source': R.source,
-            'read_pos': {str(k): list(v) for k, v in R.read_pos.items()}, 'cpython': ex, 'rd': rd, 'e01': e01}
+            'read_pos': {str(k): list(v) for k, v in R.read_pos.items()}, 'cpython': ex, 'rd': rd, 'e01': e01, 'unused': unused,
+            'site_pos': {str(k): list(v) for k, v in R.site_pos.items()}}
 
 
 def main():
